@@ -594,3 +594,51 @@ seeded('C10', 'total weight counts zero-weight observations as one', 'R10.7',
        [('statistics', "        self._n += 1\n        if weight == 0.0:\n            return\n", "        self._n += 1\n        if weight == 0.0:\n            self._sum_of_weights += 1.0\n            return\n")], key='_sum_of_weights')
 seeded('C12', 'next_float returns 1 - u (range (0, 1])', 'R12.6',
        [('streams', "        return self._random.random()\n", "        return 1.0 - self._random.random()\n")], key='next_float')
+
+# ===================================================================================================== round 3 additions
+seeded('C15', 'Normal inverse cdf forgets the factor sqrt(2)', 'R15.4',
+       [('distributions', "        \"\"\"Return the x-value of the given cumulative probability y.\"\"\"\n        return self._mu + self._sigma * math.sqrt(2.0) * erf_inv(2.0 * y - 1.0)\n\n    def _set_stream",
+         "        \"\"\"Return the x-value of the given cumulative probability y.\"\"\"\n        return self._mu + self._sigma * erf_inv(2.0 * y - 1.0)\n\n    def _set_stream")], key='DistNormal')
+seeded('C15', 'LogNormal inverse cdf not exponentiated', 'R15.4',
+       [('distributions', "        return math.exp(super().inverse_cumulative_probability(y))", "        return super().inverse_cumulative_probability(y)")], key='DistLogNormal')
+seeded('C15', 'truncated normal cdf scaled by the lower tail only', 'R15.4',
+       [('distributions', "                -self._cum_prob_lo) * self._prob_dens_factor)  ", "                -self._cum_prob_lo) / (1.0 - self._cum_prob_lo))  ")], key='DistNormalTrunc')
+benign('C15', 'truncated normal cdf divides by the interval probability instead of multiplying by its reciprocal',
+       [('distributions', "                -self._cum_prob_lo) * self._prob_dens_factor)  ", "                -self._cum_prob_lo) / self._cum_prob_diff)  ")])
+benign('C15', 'Normal inverse cdf with reordered factors',
+       [('distributions', "        return math.exp(super().inverse_cumulative_probability(y))", "        return math.exp(1.0 * super().inverse_cumulative_probability(y) + 0.0)")])
+seeded('C18', 'children of all parameter maps in one class-level dict', 'R18.11',
+       [('parameters', "class InputParameterMap(InputParameter):\n", "class InputParameterMap(InputParameter):\n    _children_by_key = {}\n"),
+        ('parameters', "        self._value[input_parameter.key] = input_parameter", "        self._value[input_parameter.key] = input_parameter\n        self._children_by_key[input_parameter.key] = input_parameter")], key='_children_by_key')
+seeded('C08', 'listener lists in a class-level dict', 'R8.8',
+       [('pubsub', "        self._listeners: dict[EventType, list[EventListener]] = dict()", "        pass")], key='_listeners', accept_analysis_error=True)
+seeded('C01', 'id counter incremented through type(self)', 'R1.4',
+       [('simevent', "        self._id: int = SimEvent.__new_event_counter()", "        self._id: int = type(self).__new_event_counter()")], key='per-subclass')
+seeded('C09', 'Tally maximum starts from the smallest positive float', 'R9.7',
+       [('statistics', "            self._min = +math.inf\n            self._max = -math.inf\n        self._n += 1\n        delta = value - self._m1", "            self._min = +math.inf\n            self._max = 2.2250738585072014e-308\n        self._n += 1\n        delta = value - self._m1")], key='_max')
+benign('C09', 'Tally.register counts with spelled-out additions',
+       [('statistics', "        self._n += 1\n        delta = value - self._m1", "        self._n = self._n + 1\n        delta = value - self._m1")])
+seeded('C05', 'strategy read once before the run loop', 'R5.1',
+       [('simulator', "        self._runflag = True\n        while not self.is_stopping_or_stopped():", "        self._runflag = True\n        strategy = self._error_strategy\n        while not self.is_stopping_or_stopped():"),
+        ('simulator', "                if self._error_strategy > ErrorStrategy.LOG_AND_CONTINUE:\n                    print(s + str(e))\n                    traceback.print_exc()\n                if self._error_strategy == ErrorStrategy.WARN_AND_PAUSE:",
+         "                if strategy > ErrorStrategy.LOG_AND_CONTINUE:\n                    print(s + str(e))\n                    traceback.print_exc()\n                if strategy == ErrorStrategy.WARN_AND_PAUSE:")], key='stale-strategy')
+benign('C05', 'strategy read into a local inside the handler',
+       [('simulator', "                if self._error_strategy > ErrorStrategy.LOG_AND_CONTINUE:\n                    print(s + str(e))\n                    traceback.print_exc()\n                if self._error_strategy == ErrorStrategy.WARN_AND_PAUSE:",
+         "                strategy = self._error_strategy\n                if strategy > ErrorStrategy.LOG_AND_CONTINUE:\n                    print(s + str(e))\n                    traceback.print_exc()\n                if strategy == ErrorStrategy.WARN_AND_PAUSE:")])
+seeded('C12', 'next_int never returns hi (range one short)', 'R12.7',
+       [('streams', "        return lo + math.floor((hi - lo + 1) * self._random.random())", "        return lo + math.floor((hi - lo) * self._random.random())")], key='range')
+seeded('C12', 'next_int rounds instead of flooring (can return hi + 1)', 'R12.7',
+       [('streams', "        return lo + math.floor((hi - lo + 1) * self._random.random())", "        return lo + round((hi - lo + 1) * self._random.random())")], key='range')
+seeded('C12', 'next_int offset by one', 'R12.7',
+       [('streams', "        return lo + math.floor((hi - lo + 1) * self._random.random())", "        return lo + 1 + math.floor((hi - lo) * self._random.random())")], key='range')
+benign('C12', 'next_int with named intermediate values',
+       [('streams', "        return lo + math.floor((hi - lo + 1) * self._random.random())", "        width = hi - lo + 1\n        u = self._random.random()\n        return lo + math.floor(width * u)")])
+benign('C12', 'next_int through int() of a non-negative product',
+       [('streams', "        return lo + math.floor((hi - lo + 1) * self._random.random())", "        return lo + int((hi - lo + 1) * self._random.random())")])
+seeded('C14', 'Uniform draw scaled by hi instead of (hi - lo)', 'R14.7',
+       [('distributions', "        return self._lo + (self._hi - self._lo) * self._stream.next_float()", "        return self._lo + self._hi * self._stream.next_float()")], key='bounds')
+seeded('C14', 'Uniform constructor accepts hi == lo ... and lo > hi', 'R14.7',
+       [('distributions', "        if hi <= lo:\n            raise ValueError(f\"parameter hi {hi} <= lo {lo}\")\n        self._lo = float(lo)\n        self._hi = float(hi)\n\n    def draw(self) -> float:\n        \"\"\"\n        Draw a value from the Uniform distribution.",
+         "        self._lo = float(lo)\n        self._hi = float(hi)\n\n    def draw(self) -> float:\n        \"\"\"\n        Draw a value from the Uniform distribution.")], key='ordering-guard')
+benign('C14', 'Uniform draw written as a convex combination of named parts',
+       [('distributions', "        return self._lo + (self._hi - self._lo) * self._stream.next_float()", "        width = self._hi - self._lo\n        u = self._stream.next_float()\n        return self._lo + u * width")])
